@@ -76,7 +76,7 @@ def cases(shard):
     yield d
 
 
-RI_KINDS = ["X", "H", "S", "T", "Z", "CX", "CZ", "CP", "Swap", "Barrier"]
+RI_KINDS = ["X", "H", "S", "T", "Z", "CX", "CZ", "CP", "Swap", "Barrier", "MCtrlX", "MCtrlZ"]
 
 
 def ri_alphabet(n):
@@ -88,6 +88,8 @@ def ri_alphabet(n):
             A += [(k, (a, b)) for a in range(n) for b in range(n) if a != b]
         elif k in ("CZ", "Swap"):
             A += [(k, (a, b)) for a in range(n) for b in range(a + 1, n)]
+        elif k in ("MCtrlX", "MCtrlZ"):
+            A += [(k, tuple(range(n)))] if n >= 2 else []
         else:
             A += [(k, ())]
     return A
@@ -245,7 +247,9 @@ def run_ri(case, bad):
     A = ri_alphabet(n)
     states = rows = nontriv = 0
     for idxs in circs.seqs(A, case["L"], {"prefix": case["prefix"], "short": case.get("short", False)}):
-        shared = {k: getattr(gates, k)() for k in RI_KINDS}
+        shared = {k: getattr(gates, k)() for k in RI_KINDS if not k.startswith("MCtrl")}
+        shared["MCtrlX"] = gates.MCtrl(gates.X(), n - 1)
+        shared["MCtrlZ"] = gates.MCtrl(gates.Z(), n - 1)
         qc = QCircuitEnhanced(n)
         for i in idxs:
             k, w = A[i]
